@@ -1025,6 +1025,15 @@ theorem mem_adjOf {arcs : List Arc} {u v : Nat} {w : Int} :
   · intro h
     exact ⟨(u, v, w), h, by simp⟩
 
+/-- The predecessor pointers cannot form a cycle: along `pred` the pair (label, stamp) decreases
+lexicographically, where the ghost `stamp` records the order of the label updates. (With zero-cost
+arcs the labels alone need not decrease.) It also says that the predecessor arc fits the labels:
+`dist (pred v) + w ≤ dist v`. -/
+def Acyc (g : Graph) (src : Nat) (dist : Nat → Int) (pred : Nat → Option Nat) : Prop :=
+  ∃ (stamp : Nat → Nat) (bound : Nat), (∀ x, stamp x < bound) ∧
+    ∀ v, v ≠ src → dist v < infDist → ∃ u w, pred v = some u ∧ (u, v, w) ∈ g.arcs ∧
+      (dist u + w < dist v ∨ (dist u + w = dist v ∧ stamp u < stamp v))
+
 /-- The invariant of the loop that does not mention the work list's completeness. -/
 structure Core (g : Graph) (src dest : Nat) (s : LibSt) : Prop where
   dsrc : s.dist src = 0
@@ -1032,11 +1041,50 @@ structure Core (g : Graph) (src dest : Nat) (s : LibSt) : Prop where
   lo : ∀ v, 0 ≤ s.dist v
   hi : ∀ v, s.dist v ≤ infDist
   snd : ∀ v, s.dist v < infDist → Walk g src v (s.dist v)
-  prd : ∀ v, v ≠ src → s.dist v < infDist →
-    ∃ u w, s.pred v = some u ∧ (u, v, w) ∈ g.arcs ∧ s.dist u + w ≤ s.dist v
+  acy : Acyc g src s.dist s.pred
   bst : s.best = if s.visitedDest then s.dist dest else maxInt64
   vis : s.visitedDest = true ↔ s.dist dest < infDist
   lst : ∀ u ∈ s.visiting, s.dist u < infDist ∧ u ≠ dest
+
+/-- The predecessor of a labelled vertex is the tail of an arc that fits the labels. -/
+theorem Core.prd {g : Graph} {src dest : Nat} {s : LibSt} (h : Core g src dest s) :
+    ∀ v, v ≠ src → s.dist v < infDist →
+      ∃ u w, s.pred v = some u ∧ (u, v, w) ∈ g.arcs ∧ s.dist u + w ≤ s.dist v := by
+  obtain ⟨stamp, bound, _, hch⟩ := h.acy
+  intro v hvs hv
+  obtain ⟨u, w, hp, ha, hd⟩ := hch v hvs hv
+  refine ⟨u, w, hp, ha, ?_⟩
+  rcases hd with hd | ⟨hd, _⟩ <;> omega
+
+/-- A relaxation keeps the predecessor structure acyclic: the relaxed vertex gets a fresh stamp. -/
+theorem acyc_relax {g : Graph} {src : Nat} {dist : Nat → Int} {pred : Nat → Option Nat}
+    (h : Acyc g src dist pred) {cur v : Nat} {w : Int} (ha : (cur, v, w) ∈ g.arcs)
+    (hlt : dist cur + w < dist v) (hvcur : v ≠ cur) :
+    Acyc g src (upd dist v (dist cur + w)) (upd pred v (some cur)) := by
+  obtain ⟨stamp, bound, hb, hch⟩ := h
+  refine ⟨upd stamp v bound, bound + 1, ?_, ?_⟩
+  · intro x
+    simp only [upd]
+    split
+    · omega
+    · have := hb x; omega
+  · intro x hxs hx
+    by_cases hxv : x = v
+    · subst hxv
+      refine ⟨cur, w, by simp [upd], ha, Or.inr ⟨?_, ?_⟩⟩
+      · simp [upd, hvcur.symm]
+      · have := hb cur
+        simp [upd, hvcur.symm]; exact this
+    · simp only [upd, hxv, if_false] at hx ⊢
+      obtain ⟨u, w', hp, hau, hd⟩ := hch x hxs hx
+      refine ⟨u, w', hp, hau, ?_⟩
+      by_cases huv : u = v
+      · subst huv
+        left
+        simp only [if_true]
+        rcases hd with hd | ⟨hd, _⟩ <;> omega
+      · simp only [huv, if_false]
+        exact hd
 
 /-- `u` needs no (further) expansion: it is pruned, or all its arcs are relaxed. -/
 def Done (g : Graph) (s : LibSt) (u : Nat) : Prop :=
@@ -1096,18 +1144,7 @@ theorem relaxOne_core (hw : ∀ e ∈ g.arcs, 0 ≤ e.2.2) {s : LibSt} (hI : Cor
       · intro x hx; simp only [upd] at hx ⊢; split
         · rename_i h; subst h; exact hwalk
         · rename_i h; simp only [h, if_false] at hx; exact hI.snd x hx
-      · intro x hxs hx
-        simp only [upd] at hx ⊢
-        by_cases hxv : x = v
-        · subst hxv
-          refine ⟨cur, w, by simp, ha, ?_⟩
-          simp [hvcur.symm]
-        · simp only [hxv, if_false] at hx ⊢
-          obtain ⟨u, w', hp, hau, hle⟩ := hI.prd x hxs hx
-          refine ⟨u, w', hp, hau, ?_⟩
-          split
-          · rename_i huv; subst huv; omega
-          · exact hle
+      · exact acyc_relax hI.acy ha hlt hvcur
       · simp [upd, hvd]
       · simp only [upd, hvd, if_true, true_iff]
         subst hvd; exact hnewlt
@@ -1144,18 +1181,7 @@ theorem relaxOne_core (hw : ∀ e ∈ g.arcs, 0 ≤ e.2.2) {s : LibSt} (hI : Cor
       · intro x hx; simp only [upd] at hx ⊢; split
         · rename_i h; subst h; exact hwalk
         · rename_i h; simp only [h, if_false] at hx; exact hI.snd x hx
-      · intro x hxs hx
-        simp only [upd] at hx ⊢
-        by_cases hxv : x = v
-        · subst hxv
-          refine ⟨cur, w, by simp, ha, ?_⟩
-          simp [hvcur.symm]
-        · simp only [hxv, if_false] at hx ⊢
-          obtain ⟨u, w', hp, hau, hle⟩ := hI.prd x hxs hx
-          refine ⟨u, w', hp, hau, ?_⟩
-          split
-          · rename_i huv; subst huv; omega
-          · exact hle
+      · exact acyc_relax hI.acy ha hlt hvcur
       · simp only [upd, hdv, if_false]; exact hI.bst
       · simp only [upd, hdv, if_false]; exact hI.vis
       · intro u hu
@@ -1261,7 +1287,7 @@ theorem Core.congr {s t : LibSt} (h : Core g src dest s) (hd : t.dist = s.dist)
     (hl : ∀ u ∈ t.visiting, u ∈ s.visiting) : Core g src dest t :=
   { dsrc := by rw [hd]; exact h.dsrc, psrc := by rw [hp]; exact h.psrc,
     lo := by rw [hd]; exact h.lo, hi := by rw [hd]; exact h.hi,
-    snd := by rw [hd]; exact h.snd, prd := by rw [hd, hp]; exact h.prd,
+    snd := by rw [hd]; exact h.snd, acy := by rw [hd, hp]; exact h.acy,
     bst := by rw [hd, hb, hv]; exact h.bst, vis := by rw [hd, hv]; exact h.vis,
     lst := fun u hu => by rw [hd]; exact h.lst u (hl u hu) }
 
@@ -1458,10 +1484,82 @@ theorem bestPathAux_spec (hw : ∀ e ∈ g.arcs, 0 ≤ e.2.2) {s : LibSt} (hI : 
       exact ih u (c :: acc) (w + cst) hw' hlast' (by omega) (by omega) p hp
 end
 
+/-- Lexicographic order on (label, stamp). -/
+def KeyLt (dist : Nat → Int) (stamp : Nat → Nat) (a b : Nat) : Prop :=
+  dist a < dist b ∨ (dist a = dist b ∧ stamp a < stamp b)
+
+theorem KeyLt.trans {dist : Nat → Int} {stamp : Nat → Nat} {a b c : Nat}
+    (h₁ : KeyLt dist stamp a b) (h₂ : KeyLt dist stamp b c) : KeyLt dist stamp a c := by
+  unfold KeyLt at *
+  rcases h₁ with h₁ | ⟨h₁, h₁'⟩ <;> rcases h₂ with h₂ | ⟨h₂, h₂'⟩
+  · left; omega
+  · left; omega
+  · left; omega
+  · right; exact ⟨by omega, by omega⟩
+
+theorem KeyLt.ne {dist : Nat → Int} {stamp : Nat → Nat} {a b : Nat} (h : KeyLt dist stamp a b) :
+    a ≠ b := by
+  intro e; subst e
+  rcases h with h | ⟨_, h⟩ <;> omega
+
+/-- `bestPath` reaches `src`: the chain of predecessors visits pairwise different vertices (their
+keys decrease), and there are only `n` of them. -/
+theorem bestPathAux_total {g : Graph} {src dest : Nat} (hw : ∀ e ∈ g.arcs, 0 ≤ e.2.2)
+    (hwf : ∀ e ∈ g.arcs, e.2.1 < g.n) (hs : src < g.n) {s : LibSt} (hI : Core g src dest s)
+    {stamp : Nat → Nat}
+    (hch : ∀ v, v ≠ src → s.dist v < infDist → ∃ u w, s.pred v = some u ∧ (u, v, w) ∈ g.arcs ∧
+      (s.dist u + w < s.dist v ∨ (s.dist u + w = s.dist v ∧ stamp u < stamp v))) :
+    ∀ (fuel c : Nat) (acc : List Nat), (c :: acc).Pairwise (KeyLt s.dist stamp) →
+      (∀ x ∈ c :: acc, s.dist x < infDist) → g.n + 1 ≤ acc.length + fuel →
+      bestPathAux s.pred src fuel c acc ≠ none := by
+  have hlt : ∀ x, s.dist x < infDist → x < g.n := by
+    intro x hx
+    rcases walk_end_lt hwf (hI.snd x hx) with h | h
+    · rw [h]; exact hs
+    · exact h
+  intro fuel
+  induction fuel with
+  | zero =>
+    intro c acc hp hl hlen
+    exfalso
+    have hnd : (c :: acc).Nodup := hp.imp (fun h => h.ne)
+    have := nodup_length_le g.n (c :: acc) hnd (fun x hx => hlt x (hl x hx))
+    simp at this; omega
+  | succ fuel ih =>
+    intro c acc hp hl hlen
+    simp only [bestPathAux]
+    split
+    · simp
+    · rename_i hcs
+      have hc := hl c List.mem_cons_self
+      obtain ⟨u, w, hpu, hau, hd⟩ := hch c hcs hc
+      rw [hpu]
+      simp only
+      have hw0 : 0 ≤ w := hw _ hau
+      have hlo := hI.lo u
+      have hkey : KeyLt s.dist stamp u c := by
+        unfold KeyLt
+        rcases hd with hd | ⟨hd, hst⟩
+        · left; omega
+        · by_cases h0 : w = 0
+          · right; exact ⟨by omega, hst⟩
+          · left; omega
+      apply ih u (c :: acc)
+      · refine List.pairwise_cons.mpr ⟨?_, hp⟩
+        intro x hx
+        rcases List.mem_cons.mp hx with rfl | hx
+        · exact hkey
+        · exact hkey.trans ((List.pairwise_cons.mp hp).1 x hx)
+      · intro x hx
+        rcases List.mem_cons.mp hx with rfl | hx
+        · rcases hd with hd | ⟨hd, _⟩ <;> omega
+        · exact hl x hx
+      · simp; omega
+
 theorem libInit_inv (g : Graph) {src dest : Nat} (hsd : src ≠ dest) :
     LoopInv g src dest (libInit src) := by
   have hinf : (0 : Int) < infDist := by decide
-  refine { dsrc := by simp [libInit], psrc := rfl, lo := ?_, hi := ?_, snd := ?_, prd := ?_,
+  refine { dsrc := by simp [libInit], psrc := rfl, lo := ?_, hi := ?_, snd := ?_, acy := ?_,
            bst := rfl, vis := ?_, lst := ?_, set := ?_, old := ?_ }
   · intro v; simp only [libInit]; split <;> omega
   · intro v; simp only [libInit]; split <;> omega
@@ -1470,7 +1568,8 @@ theorem libInit_inv (g : Graph) {src dest : Nat} (hsd : src ≠ dest) :
     split at hv
     · rename_i h; subst h; simp; exact Walk.nil _
     · omega
-  · intro v hvs hv
+  · refine ⟨fun _ => 0, 1, fun _ => Nat.zero_lt_one, ?_⟩
+    intro v hvs hv
     simp only [libInit, hvs, if_false] at hv
     omega
   · simp only [libInit]
@@ -1489,7 +1588,8 @@ theorem libInit_inv (g : Graph) {src dest : Nat} (hsd : src ≠ dest) :
 
 /-- **Partial correctness of the ported `Shortest`** for weights ≥ 0: whenever it answers, the
 answer is right; the loop error never occurs. -/
-theorem libShortest_spec (g : Graph) (hw : ∀ e ∈ g.arcs, 0 ≤ e.2.2) {src dest : Nat}
+theorem libShortest_spec (g : Graph) (hw : ∀ e ∈ g.arcs, 0 ≤ e.2.2)
+    (hwf : ∀ e ∈ g.arcs, e.2.1 < g.n) {src dest : Nat} (hs : src < g.n)
     (hsd : src ≠ dest) (fuel : Nat) :
     match libShortest fuel g.n (adjOf g.arcs) src dest with
     | .ok d p => IsDist g src dest d ∧
@@ -1497,7 +1597,7 @@ theorem libShortest_spec (g : Graph) (hw : ∀ e ∈ g.arcs, 0 ≤ e.2.2) {src d
     | .noPath => ∀ c, Walk g src dest c → infDist ≤ c
     | .loopErr => False
     | .outOfFuel => True
-    | .badPred => True := by
+    | .badPred => False := by
   have hloop := evalLoop_inv hw fuel (libInit src) (libInit_inv g hsd)
   unfold libShortest
   cases hev : evalLoop (adjOf g.arcs) dest fuel (libInit src) with
@@ -1517,7 +1617,11 @@ theorem libShortest_spec (g : Graph) (hw : ∀ e ∈ g.arcs, 0 ≤ e.2.2) {src d
       · simp only [hvd, if_true]
         have hlab : s.dist dest < infDist := hI.vis.mp hvd
         cases hbp : bestPathAux s.pred src (g.n + 1) dest [] with
-        | none => trivial
+        | none =>
+          obtain ⟨stamp, bound, _, hch⟩ := hI.acy
+          exact bestPathAux_total hw hwf hs hI.toCore hch (g.n + 1) dest []
+            (List.pairwise_singleton _ _) (by intro x hx; simp at hx; subst hx; exact hlab)
+            (by simp) hbp
         | some p =>
           simp only
           obtain ⟨cst', hvw, hhead, hlast, hle⟩ :=
@@ -1550,22 +1654,23 @@ theorem lookup_libTable (g : Graph) (d : Nat) :
 
 /-- **The routing table computed with the ported library loop is right** — for every graph with
 weights ≥ 0 and every iteration order of the arc maps (the order of `g.arcs`), provided the loop
-ends within the port's fuel (`outOfFuel`/`badPred` do not occur: termination is not proved) and
-reachable destinations are reachable at a cost below `MaxInt64 - 2` (the library's "infinity"). -/
+ends within the port's fuel (`outOfFuel` does not occur: termination of the main loop is not
+proved) and reachable destinations are reachable at a cost below `MaxInt64 - 2` (the library's
+"infinity"). -/
 theorem libTable_correct (g : Graph) (hw : ∀ e ∈ g.arcs, 0 ≤ e.2.2)
     (hwf : ∀ e ∈ g.arcs, e.2.1 < g.n)
     (hcost : ∀ d c, Walk g 0 d c → ∃ c', Walk g 0 d c' ∧ c' < infDist)
     (hterm : ∀ d, d < g.n → d ≠ 0 →
-      libShortest (libFuel g) g.n (adjOf g.arcs) 0 d ≠ .outOfFuel ∧
-      libShortest (libFuel g) g.n (adjOf g.arcs) 0 d ≠ .badPred) :
+      libShortest (libFuel g) g.n (adjOf g.arcs) 0 d ≠ .outOfFuel) :
     MinCostNextHop g (lookup (libTable g)) := by
   have key : ∀ d, d < g.n → d ≠ 0 →
       (∀ h, libNextHop g d = some h →
         ∃ w c, (0, h, w) ∈ g.arcs ∧ Walk g h d c ∧ IsDist g 0 d (w + c)) ∧
       (Reachable g 0 d → (libNextHop g d).isSome = true) := by
     intro d hd hd0
-    have hspec := libShortest_spec g hw (src := 0) (dest := d) (fun e => hd0 e.symm) (libFuel g)
-    obtain ⟨hnf, hnb⟩ := hterm d hd hd0
+    have hspec := libShortest_spec g hw hwf (src := 0) (dest := d) (by omega) (fun e => hd0 e.symm)
+      (libFuel g)
+    have hnf := hterm d hd hd0
     unfold libNextHop
     cases hres : libShortest (libFuel g) g.n (adjOf g.arcs) 0 d with
     | ok dist p =>
@@ -1586,7 +1691,7 @@ theorem libTable_correct (g : Graph) (hw : ∀ e ∈ g.arcs, 0 ≤ e.2.2)
       omega
     | loopErr => rw [hres] at hspec; exact hspec.elim
     | outOfFuel => exact absurd hres hnf
-    | badPred => exact absurd hres hnb
+    | badPred => rw [hres] at hspec; exact hspec.elim
   constructor
   · intro d
     rw [lookup_libTable]
